@@ -516,7 +516,56 @@ def r4_runs(ctx, repo):
         raise AnalysisError("expected at least 15 store-touching run() methods, found %d" % n)
 
 
+def sqlite_affinity(decl):
+    """column affinity by SQLite's rules for a declared type (https://sqlite.org/datatype3.html 3.1)"""
+    d = (decl or "").upper()
+    if "INT" in d:
+        return "INTEGER"
+    if "CHAR" in d or "CLOB" in d or "TEXT" in d:
+        return "TEXT"
+    if "BLOB" in d or d.strip() == "":
+        return "BLOB"
+    if "REAL" in d or "FLOA" in d or "DOUB" in d:
+        return "REAL"
+    return "NUMERIC"
+
+
+def r5_schema(ctx, repo, cls):
+    """what is written comes back as it was written only if the column does not convert it: a free-text column (problem
+    name, description, parameter / cost names) needs TEXT or BLOB affinity - with NUMERIC / INTEGER / REAL affinity SQLite turns
+    a text that looks like a number ('2024', '1e3', '0042') into that number on insert"""
+    mod = cls.module
+    n = 0
+    for k, v in cls.class_attrs.items():
+        if not (isinstance(v, ast.Constant) and isinstance(v.value, str)):
+            continue
+        m = re.match(r"\s*CREATE TABLE (?:IF NOT EXISTS )?(\w+)\s*\((.*)\)\s*(?:WITHOUT\s+ROWID)?\s*;?\s*$", v.value, re.I | re.S)
+        if not m:
+            continue
+        table = m.group(1)
+        for col in [c.strip() for c in m.group(2).split(",")]:
+            parts = col.split()
+            if not parts or parts[0].upper() in ("PRIMARY", "UNIQUE", "CHECK", "FOREIGN", "CONSTRAINT"):
+                continue
+            cname = parts[0]
+            decl = []
+            for w in parts[1:]:
+                if w.upper() in ("NOT", "NULL", "PRIMARY", "KEY", "UNIQUE", "DEFAULT", "CHECK", "REFERENCES", "COLLATE", "AUTOINCREMENT"):
+                    break
+                decl.append(w)
+            aff = sqlite_affinity(" ".join(decl))
+            n += 1
+            if cname.lower() in ("name", "description"):
+                ctx.check(aff in ("TEXT", "BLOB"), "R5", "SqliteDataStore(%s.%s)" % (table, cname), where(mod, cls.node),
+                          ("column %s.%s declared `%s` has %s affinity: text is stored as text" % (table, cname, " ".join(decl), aff)) if aff in ("TEXT", "BLOB") else
+                          ("column %s.%s is declared `%s`, which has %s affinity in SQLite: a name that looks like a number ('2024', '1e3', '0042') is converted to that "
+                           "number when it is inserted and comes back as an int / float" % (table, cname, " ".join(decl), aff)), key="affinity:%s.%s" % (table, cname))
+    if n == 0:
+        ctx.inconclusive("R5", "SqliteDataStore(schema)", where(mod, cls.node), "no CREATE TABLE statement recognised", key="affinity")
+
+
 def run(ctx):
+    ctx.rule("R5", "free-text columns have TEXT/BLOB affinity")
     for rid, doc in (("R1", "writer/reader field tables agree for the claimed fields"), ("R2", "primary key + upsert + binding"),
                      ("R3", "reader selects all tables and rebuilds through from_dict; view is read-mode"), ("R4", "run() methods synchronise after the last recording/tagging; sync_all covers problem.individuals")):
         ctx.rule(rid, doc)
@@ -528,3 +577,4 @@ def run(ctx):
     r2_sql(ctx, ctx.repo, cls)
     r3_read(ctx, ctx.repo, cls)
     r4_runs(ctx, ctx.repo)
+    r5_schema(ctx, ctx.repo, cls)
